@@ -19,7 +19,7 @@ RULE = ("one case = one generated real directory tree (depth <= 5 below the case
         "projects made by signac.init_project (some with non-canonical config text, project document, state point cache, "
         "or without workspace directory), jobs made by open_job().init(), projects nested in job directories (the job "
         "directory itself or a sub-directory) and in plain sub-directories, job directories that are symbolic links "
-        "(relative / absolute target) to a directory stored elsewhere, stray links, files; projects whose OWN directory is called 'workspace' (stand-alone or below a plain sub-directory of another project); directories that hold '.signac/' but no '.signac/config' (dissolved project with its cache left behind, half-finished init) inside projects, inside jobs and outside every project, each queried with search=False and init_project too; names that merely CONTAIN 32 hex characters (64/40/33-hex, run_<md5>, <id>.bak) as sub-directories of jobs, plain directories and projects and as queried leaves (inside the quantifier: they are not 32-hex-named); a fraction of trees leaves the "
+        "(relative / absolute target) to a directory stored elsewhere, stray links, files; projects whose OWN directory is called 'workspace' (stand-alone or below a plain sub-directory of another project); directories that hold '.signac/' but no '.signac/config' (dissolved project with its cache left behind, half-finished init; job directories WITHOUT a state point file (created before Job.init), also as jobs of a project nested in a job directory; leftover legacy signac.rc files in plain sub-directories and job directories below initialised projects; projects with a persisted state point cache whose workspace directory was moved away) inside projects, inside jobs and outside every project, each queried with search=False and init_project too; names that merely CONTAIN 32 hex characters (64/40/33-hex, run_<md5>, <id>.bak) as sub-directories of jobs, plain directories and projects and as queried leaves (inside the quantifier: they are not 32-hex-named); a fraction of trees leaves the "
         "layout hypothesis (exact 32-hex names outside workspaces, legacy signac.rc projects, foreign schema "
         "versions) and is compared with the model only.  Every directory of the tree (also through links), plus "
         "non-existent paths, is queried with get_project(search=True/False), get_job, init_project as absolute path, "
@@ -63,6 +63,11 @@ def gen_children(rng, depth, budget, odd):
             # It is a plain directory for discovery.
             out.append({"k": "dissolved", "name": name, "left": rng.choice(["cache", "empty"]),
                         "ch": [c for c in gen_children(rng, depth + 1, budget, False) if c["name"] != ".signac"]})
+        elif r < 0.48:
+            # a plain directory holding a LEFTOVER legacy configuration (signac.rc): not an initialised project;
+            # below an initialised project discovery walks past it
+            out.append({"k": "legacy", "name": name, "ver": rng.choice([None, 0, 1]),
+                        "ch": gen_children(rng, depth + 1, budget, False)})
         elif r < 0.85:
             e = {"k": "dir", "name": name, "ch": gen_children(rng, depth + 1, budget, odd)}
             out.append(e)
@@ -109,12 +114,27 @@ def gen_project(rng, name, depth, budget, odd):
                            if not (j["k"] == "proj" and c["name"] == "workspace")]
             if rng.random() < 0.25:
                 j["link"] = rng.choice(["rel", "abs"])
+            r2 = rng.random()
+            if r2 < 0.15:
+                j["bare"] = True      # the directory exists (makedirs, data written) but Job.init never ran: no state point file
+            elif r2 < 0.22:
+                j["rc"] = True        # a leftover legacy signac.rc inside the job directory
+            if j["k"] == "proj":
+                for jj in j["jobs"]:
+                    if rng.random() < 0.35:
+                        jj["bare"] = True
             jobs.append(j)
     e = {"k": "proj", "name": name, "jobs": jobs,
          "ch": [c for c in gen_children(rng, depth + 1, budget, odd) if c["name"] not in ("workspace", "_store")],
          "cfgv": rng.choice(["std", "std", "nospace", "comment", "extra", "quoted"]),
          "doc": rng.random() < 0.4, "cache": rng.random() < 0.4 and bool(jobs),
          "nows": (not jobs) and rng.random() < 0.3}
+    if jobs and depth >= 1 and rng.random() < 0.12:
+        # the workspace directory was moved away / archived after update_cache: persisted cache, no workspace
+        e["nows"] = True
+        e["cache"] = True
+        for j in jobs:
+            j.pop("bare", None)
     return e
 
 
@@ -143,8 +163,9 @@ def _p(name, jobs=(), ch=(), **kw):
     return e
 
 
-def _j(a, k="dir", ch=(), link=None, jobs=()):
+def _j(a, k="dir", ch=(), link=None, jobs=(), **kw):
     j = {"a": a, "k": k, "ch": list(ch), "link": link}
+    j.update(kw)
     if k == "proj":
         j["jobs"] = list(jobs)
     return j
@@ -194,6 +215,16 @@ FIXED = [
                {"k": "dissolved", "name": "halfinit", "left": "empty", "ch": []}]),
         {"k": "dir", "name": "noproj", "ch": [{"k": "dissolved", "name": "d2", "left": "empty", "ch": []}]}]},
      "links": [], "qseed": 7, "odd": False},
+    # job directories without a state point file (makedirs before Job.init): alone, and as jobs of a project that lives in
+    # an initialised job directory of an outer project; leftover signac.rc in a plain sub-directory and in a job directory
+    # below an initialised project; a project with a persisted cache whose workspace directory was moved away
+    {"top": {"k": "dir", "name": "", "ch": [
+        _p("outer", jobs=[_j(0, "proj", jobs=[_j(0, bare=True, ch=[{"k": "dir", "name": "sub", "ch": []}]), _j(1)]),
+                          _j(1, bare=True), _j(2, rc=True, ch=[{"k": "dir", "name": "sub", "ch": []}])],
+           ch=[{"k": "legacy", "name": "old", "ver": 1, "ch": [{"k": "dir", "name": "sub", "ch": []}]},
+               _p("archived", jobs=[_j(0), _j(1)], nows=True, cfgv="nospace")]),
+        _p("solo", jobs=[_j(4, bare=True)], doc=False)]},
+     "links": [], "qseed": 8, "odd": False},
     # project without workspace directory, empty project
     {"top": {"k": "dir", "name": "", "ch": [_p("nows", nows=True, cfgv="extra"), _p("empty", cfgv="quoted")]},
      "links": [], "qseed": 3, "odd": False},
@@ -216,13 +247,21 @@ def build_project_at(path, e, store_root):
     project = signac.init_project(path)
     for j in e.get("jobs", []):
         job = project.open_job({"a": j["a"]})
-        job.init()
         jp = job.path
+        if j.get("bare"):
+            os.makedirs(jp)
+            with open(os.path.join(jp, "early.dat"), "wb") as fh:
+                fh.write(b"written before init")
+        else:
+            job.init()
         if j["k"] == "proj":
             build_project_at(jp, {"jobs": j.get("jobs", []), "ch": [], "cfgv": "std", "doc": False, "cache": False, "nows": False}, store_root)
         for c in j["ch"]:
             build_entry(jp, c, store_root)
-        if j["a"] % 2 == 0:
+        if j.get("rc"):
+            with open(os.path.join(jp, "signac.rc"), "wb") as fh:
+                fh.write(b"project = leftover\nschema_version = 1\n")
+        if j["a"] % 2 == 0 and not j.get("bare"):
             job.document["d"] = j["a"]
         if j["link"]:
             store = os.path.join(path, "_store")
@@ -236,8 +275,8 @@ def build_project_at(path, e, store_root):
         os.makedirs(os.path.join(path, e["hexsub"]))
     if e.get("doc"):
         project.document["name"] = "p"
-    if e.get("cache"):
-        project.update_cache()
+    if e.get("cache") and not any(j.get("bare") for j in e.get("jobs", [])):
+        project.update_cache()      # (a directory without state point file makes update_cache fail)
     if e.get("cfgv", "std") != "std":
         with open(os.path.join(path, ".signac", "config"), "wb") as fh:
             fh.write(CFG_VARIANTS[e["cfgv"]])
